@@ -64,12 +64,18 @@ class Checker(object):
         counts = {}
         for o in self.obligations:
             counts[o["rule"]] = counts.get(o["rule"], 0) + 1
+        known = self._known()
+        open_keys = set((e["rule"], e["construct"]) for e in known if e.get("status", "open") == "open")
         for rid, floor in self.floors.items():
             if counts.get(rid, 0) < floor:
+                # a rule that already found an unlisted violation has not passed vacuously: report the violation; the instance
+                # floor only guards against silent, empty passes
+                if any((not o["ok"]) and o["rule"] == rid and (o["rule"], o["construct"]) not in open_keys for o in self.obligations):
+                    self.notes.append("rule %s matched %d instance(s) (< %d) after reporting a violation" % (rid, counts.get(rid, 0), floor))
+                    continue
                 raise AnalysisError("rule %s matched %d instance(s), fewer than the %d confirmed by "
                                     "hand on the pinned tree (anchor moved or extractor blind)"
                                     % (rid, counts.get(rid, 0), floor))
-        known = self._known()
         open_known = dict(((e["rule"], e["construct"]), e) for e in known
                           if e.get("status", "open") == "open")
         viol = []
